@@ -100,9 +100,11 @@ def materialise(doc):
 
 
 class Run(object):
-    def __init__(self, docs, circuit_ref=None):
+    def __init__(self, docs, circuit_ref=None, mid=False):
         """docs: list of documents ({ident: variant}); first via ns/all, the rest via NEWCONSENSUS.
-        circuit_ref: (position, ident) - before document #position arrives, a CIRC event names relay ident in its path"""
+        circuit_ref: (position, ident) - before document #position arrives, a CIRC event names relay ident in its path
+        mid: the second document arrives while TorState is still bootstrapping, as soon as Tor has acknowledged the
+        subscription to NEWCONSENSUS"""
         self.viol = []
         self.log = []
         with World() as w:
@@ -113,14 +115,31 @@ class Run(object):
             boot = []
             st.post_bootstrap.addCallbacks(lambda s: boot.append('ok'), lambda f: boot.append(f))
             finish_bootstrap(proto)
-            sim.pump()
             self.log.append('ns/all: %r' % (C.render(first),))
+            if mid and len(docs) > 1:
+                sim.hold_prefixes = ['SETEVENTS']
+                sim.pump()
+                guard = 0
+                while 'NEWCONSENSUS' not in sim.events and sim.next_command() and sim.next_command().startswith('SETEVENTS') and guard < 50:
+                    sim.answer_one()
+                    guard += 1
+                if 'NEWCONSENSUS' in sim.events and not boot:
+                    rl = materialise(docs[1])
+                    lines = C.render(rl)
+                    sim.event_bytes(ctlcodec.encode_event('NEWCONSENSUS', 'data', [''] + lines))
+                    self.log.append('NEWCONSENSUS (bootstrap still running): %r' % (lines,))
+                    first = rl
+                    docs = [docs[1]] + list(docs[2:])
+                else:
+                    self.log.append('(no mid-bootstrap window: subscribed=%r boot=%r)' % ('NEWCONSENSUS' in sim.events, boot))
+                sim.hold_prefixes = []
+            sim.pump()
             if boot != ['ok']:
                 self.viol.append(('bootstrap-failed', 'ns/all', '%r; errors %r' % (boot, w.errors()[:1])))
                 self.obs = ('boot-failed',)
                 return
             objs = {}
-            self.check(st, first, objs, 'after ns/all', 0)
+            self.check(st, first, objs, 'after bootstrap', 0)
             for i, d in enumerate(docs[1:], 1):
                 if self.viol:
                     break
@@ -313,6 +332,8 @@ def run_task(param, acc):
     _, bi, ci = param
     d0 = base_docs()[bi]
     label1, d1 = changes(d0)[ci]
+    r = Run([d0, d1], mid=True)
+    rec_run(acc, ('chain2m', doc_key(d0), label1), r, dict(fam='chain', docs=[ser(d0), ser(d1)], circ=None, mid=True), cost=3)
     r = Run([d0, d1])
     rec_run(acc, ('chain2', doc_key(d0), label1), r, dict(fam='chain', docs=[ser(d0), ser(d1)], circ=None), cost=2)
     # the relay first seen in a circuit path joins later
@@ -346,7 +367,7 @@ def replay(p):
         viol, n = codec_check()
         return dict(violations=[dict(signature='%s/%s' % (c, f), what=d) for c, f, d in viol], log=[])
     docs = [deser(x) for x in p['docs']]
-    r = Run(docs, circuit_ref=tuple(p['circ']) if p.get('circ') else None)
+    r = Run(docs, circuit_ref=tuple(p['circ']) if p.get('circ') else None, mid=bool(p.get('mid')))
     return dict(violations=[dict(signature='%s/%s' % (c, f), what=d) for c, f, d in r.viol], log=r.log)
 
 
@@ -355,7 +376,7 @@ def meta(tier):
         engine='E2 exploration over consensus-document chains on the real TorState (bootstrap ns/all, then NEWCONSENSUS events)',
         rule='6 starting documents x every single relay-level change (join, join as guard with IPv6, leave, each other flag set, '
              'each other number of "a" lines, drop/restore "w"+"p", rename creating or resolving a nickname clash, re-address) '
-             'x every single change again (chains of 3 documents%s); every document over <= 3 relays x 4 flag sets x 0/1/2 "a" '
+             'x every single change again (chains of 3 documents%s); every 2-document chain also with the second document arriving as a NEWCONSENSUS event while the bootstrap is still running (right after the subscription was acknowledged); every document over <= 3 relays x 4 flag sets x 0/1/2 "a" '
              'lines x w/p presence x rename, through both delivery paths; identity codec on 5122 values. non-trivial: all'
              % (', plus a third step in thorough' if tier == 'thorough' else ''),
         bounds=dict(pool=5, chain_len=(3 if tier == 'quick' else 4), flagsets=len(FLAGSETS)),
